@@ -22,6 +22,23 @@ def units():
                       "kind": "proof (pair lemma; channels and encoding enumerated; N, sample rate, byte order symbolic; loops over literal format strings unwound completely)",
                       "trusted": ["harness virtual-I/O callbacks stand for the caller's SF_VIRTUAL_IO (header region stored, audio region a length)",
                                   "psf_log_printf compiled out in the container translation unit"]})
+    # C10: open-for-write acceptance per container (real sf_format_check + real X_open + real header writer)
+    COMMON_STUBS = "STUB1 (pcm_init) STUB1 (ulaw_init) STUB1 (alaw_init) STUB1 (float32_init) STUB1 (double64_init) "
+    OPENS = {
+        "aiff": ("aiff.c", "aiff_open", "SF_FORMAT_AIFF", COMMON_STUBS + "STUB2 (dwvw_init, int) STUB1 (gsm610_init) STUB3 (aiff_ima_init)"),
+        "au": ("au.c", "au_open", "SF_FORMAT_AU", COMMON_STUBS + "STUB1 (g72x_init)"),
+    }
+    for cname, (cfile, openfn, cfmt, stubs) in OPENS.items():
+        for ch in (1, 2, 3):
+            U.append({"name": "open.%s.ch%d" % (cname, ch), "props": ["C10"], "harness": "hdr_open.harness.c", "entry": "h_open_write",
+                      "dfcc": False, "function": "%s:%s (write mode) + sndfile.c:sf_format_check" % (cfile, openfn),
+                      "link_sources": ["common.c", "file_io.c", "sndfile.c"],
+                      "defines": ["-DCH=%d" % ch, "-DCONTAINER_FILE=\"%s\"" % cfile, "-DOPEN_FN=%s" % openfn, "-DCONTAINER_FMT=%s" % cfmt,
+                                  "-DCODEC_STUBS=%s" % stubs],
+                      "cbmc_flags": ["--unwind", "80", "--unwindset", "v_write.0:1030", "--object-bits", "12"], "timeout": 1200, "tier": "quick" if ch in (1, 2) else "thorough",
+                      "pre_gi_flags": ["--remove-function-body", "psf_log_printf"],
+                      "kind": "proof (encoding and byte order symbolic over everything the real sf_format_check admits; channels enumerated)",
+                      "trusted": ["codec initialisers replaced by call-counting stand-ins", "harness virtual-I/O callbacks"]})
     return U
 
 
